@@ -534,7 +534,12 @@ func genC14(tier, out string, sum *Summary) {
 				sum.Samples = append(sum.Samples, sum.Index[sid])
 			}
 			if !sameObs(ref, o, false) {
-				sum.direct("kind-dependence", e, doc, fmt.Sprintf("with json.Number leaves %s; with leaves %s it gives %s", describe(ref), fmt.Sprintf("%#v", d2), describe(o)))
+				if usesFloat(d2) && floatRounding(ref, o) {
+					// an intermediate value is not exactly representable in binary: outside the property's premise
+					sum.count("float-rounding-skipped")
+				} else {
+					sum.direct("kind-dependence", e, doc, fmt.Sprintf("with json.Number leaves %s; with leaves %s it gives %s", describe(ref), fmt.Sprintf("%#v", d2), describe(o)))
+				}
 			}
 			if ref.Kind == "val" && ref.Value != nil {
 				distinct[e+toJSON(doc)] = true
@@ -735,6 +740,53 @@ func hasCall(e *R) bool {
 		if hasCall(a.E) {
 			return true
 		}
+	}
+	return false
+}
+
+// do two outcomes differ only by binary rounding of a number (relative error below 1e-12)?
+func floatRounding(a, b Obs) bool {
+	if a.Kind != "val" || b.Kind != "val" {
+		return false
+	}
+	return nearValues(a.Value, b.Value)
+}
+
+func nearValues(x, y any) bool {
+	if dx, ok := toDec(x); ok {
+		dy, ok2 := toDec(y)
+		if !ok2 || dx.IsNaN() || dy.IsNaN() || dx.IsInf(0) || dy.IsInf(0) {
+			return false
+		}
+		fx, fy := dx.Float64(), dy.Float64()
+		d := math.Abs(fx - fy)
+		m := math.Max(math.Abs(fx), math.Abs(fy))
+		return d <= 1e-12*m
+	}
+	switch xv := x.(type) {
+	case []any:
+		yv, ok := y.([]any)
+		if !ok || len(xv) != len(yv) {
+			return false
+		}
+		for i := range xv {
+			if !sameValue(xv[i], yv[i], false) && !nearValues(xv[i], yv[i]) {
+				return false
+			}
+		}
+		return true
+	case map[string]any:
+		yv, ok := y.(map[string]any)
+		if !ok || len(xv) != len(yv) {
+			return false
+		}
+		for k, v := range xv {
+			w, ok := yv[k]
+			if !ok || (!sameValue(v, w, false) && !nearValues(v, w)) {
+				return false
+			}
+		}
+		return true
 	}
 	return false
 }
